@@ -88,7 +88,7 @@ def run(ck):
   last[key][k] = bad["steps"][-1]["upd"][key][k - 1] if k > 0 else [0, 0]
   bad2 = copy.deepcopy(next(b for b in beh if not b["cfg"]["skipped"]))   # statistics weight wrong
   bad2["steps"][-1]["root"][0] = [5, 1]
-  sub = core.Check(ck.pid, ck.level, ck.tier, ck.seed); sub.work = ck.work
+  sub = core.Check(ck.pid, ck.level, ck.tier, ck.seed, parent=ck)
   sj = make_jobs(sub, [bad, bad2], geos=GEOS[:1])
   sr = execute(sub, sj)
   ck.selftest("R: wrong momentum coefficient is flagged", bool(sr[0]["mismatches"]))
